@@ -1,9 +1,15 @@
 (* C11 - Region algebra behaves as set algebra on pixels.
    Only property theorems here, each closed by [exact] of a lemma proved elsewhere. *)
-From LV Require Import Region.RegionDefs Gen.Funs_C11 Region.RegionProofs0 Region.RegionProofs Region.RegionIter.
+From LV Require Import Region.RegionDefs Gen.Funs_C11 Region.RegionProofs0 Region.RegionProofs Region.RegionIter
+     Region.RegionBBox.
 Local Open Scope Z_scope.
 
-(* clipping: the function re-translated from rfbregion.c computes rectangle intersection *)
+(* Scope of every theorem below: coordinates are mathematical integers (Z).  The C code computes in
+   [int]; x+w in sraClipRect, the additions of sraRgnOffset and nothing else can overflow, and signed
+   overflow is undefined in C, so the theorems speak about the C functions for the inputs on which
+   those sums stay inside [int] (the correspondence check only generates such inputs).
+
+   clipping: the function re-translated from rfbregion.c computes rectangle intersection *)
 Theorem C11_clip_sem : forall x y w h cx cy cw ch px py,
   let '(b, x', y', w', h') := sraClipRect x y w h cx cy cw ch in
   rect_mem (x', y', x' + w', y' + h') px py =
@@ -61,8 +67,17 @@ Proof.
   exact (fun a b Ha Hb => conj (rgn_or_wf a b Ha Hb) (conj (rgn_and_wf a b Ha Hb) (rgn_sub_wf a b Ha Hb))).
 Qed.
 
-(* the booleans returned by intersect / subtract say whether the result is non-empty,
-   and "empty" means "covers no pixel" *)
+(* the booleans returned by intersect / subtract: TRUE exactly when the two regions share a pixel /
+   when a pixel of the first lies outside the second *)
+Theorem C11_and_nonempty_iff : forall a b, WF a -> WF b ->
+  (snd (rgn_and a b) = true <-> exists x y, rgn_mem a x y = true /\ rgn_mem b x y = true).
+Proof. exact and_nonempty_iff. Qed.
+
+Theorem C11_sub_nonempty_iff : forall a b, WF a -> WF b ->
+  (snd (rgn_sub a b) = true <-> exists x y, rgn_mem a x y = true /\ rgn_mem b x y = false).
+Proof. exact sub_nonempty_iff. Qed.
+
+(* (the structural form of the same fact: the boolean is "result list not empty") *)
 Theorem C11_bool_results : forall a b, WF a -> WF b ->
   snd (rgn_and a b) = negb (rgn_is_empty (fst (rgn_and a b))) /\
   snd (rgn_sub a b) = negb (rgn_is_empty (fst (rgn_sub a b))).
@@ -76,7 +91,11 @@ Theorem C11_create_offset_wf : forall x1 y1 x2 y2 r dx dy,
   (x1 < x2 -> y1 < y2 -> WF (rgn_create_rect x1 y1 x2 y2)) /\ (WF r -> WF (rgn_offset r dx dy)).
 Proof. exact (fun x1 y1 x2 y2 r dx dy => conj (create_rect_wf x1 y1 x2 y2) (offset_wf r dx dy)). Qed.
 
-(* iteration in any of the four directions: every pixel of the region lies in exactly one
+(* iteration.  [rgn_iter] is the SPECIFICATION of the rectangle sequence (band by band, span by span,
+   each level reversed on request); the C iterator is a small stack machine over the same lists
+   (sraRgnIteratorNext), which is compared with [rgn_iter] case by case by the correspondence check
+   and has no mirror of its own.  The theorems say what that specified sequence guarantees.
+   Iteration in any of the four directions: every pixel of the region lies in exactly one
    of the iterated rectangles and every other pixel in none (pairwise disjoint, union = region);
    every rectangle is non-empty *)
 Theorem C11_iter_partition : forall revX revY r x y, WF r ->
@@ -95,7 +114,9 @@ Theorem C11_iter_monotone : forall rx ry r, WF r ->
   allpairs (rect_before rx ry) (rgn_iter rx ry r).
 Proof. exact iter_monotone. Qed.
 
-(* sraRgnPopRect as the library uses it (flags 0): rectangle + rest, nothing lost, nothing added *)
+(* sraRgnPopRect as the library uses it (flags 0, its only call site rfbserver.c): rectangle + rest,
+   nothing lost, nothing added.  The other three flag values are modelled (rgn_pop_rect) and compared
+   with the C code by the correspondence check, but have no theorem. *)
 Theorem C11_poprect_sem : forall r, WF r ->
   match rgn_pop_rect r false false with
   | None => r = []
@@ -106,9 +127,28 @@ Theorem C11_poprect_sem : forall r, WF r ->
   end.
 Proof. exact pop_rect_sem. Qed.
 
+(* sraRgnBBox is exact: the result encloses every pixel (C11_bbox_encloses) and, for a non-empty
+   region with int coordinates, is one rectangle each of whose four sides is touched by a pixel of
+   the region (C11_bbox_exact) - i.e. the smallest enclosing rectangle; the box of the empty region
+   is empty.  The range hypothesis is needed: the fold starts from +-INT_MAX like the C code. *)
 Theorem C11_bbox_encloses : forall r x y, WF r ->
   WF (rgn_bbox r) /\ (rgn_mem r x y = true -> rgn_mem (rgn_bbox r) x y = true).
 Proof. exact (fun r x y W => conj (bbox_wf r W) (bbox_sup r x y W)). Qed.
+
+Theorem C11_bbox_exact : forall r, WF r -> r <> [] ->
+  (forall x y, rgn_mem r x y = true -> int_coord x /\ int_coord y) ->
+  exists x1 y1 x2 y2, rgn_bbox r = rgn_create_rect x1 y1 x2 y2 /\ x1 < x2 /\ y1 < y2 /\
+    (exists y, rgn_mem r x1 y = true) /\ (exists y, rgn_mem r (x2 - 1) y = true) /\
+    (exists x, rgn_mem r x y1 = true) /\ (exists x, rgn_mem r x (y2 - 1) = true).
+Proof. exact bbox_exact. Qed.
+
+Theorem C11_bbox_empty : rgn_bbox [] = [].
+Proof. exact bbox_empty. Qed.
+
+Example C11_bbox_exact_nonvacuous :
+  let r := rgn_or (rgn_create_rect 0 0 10 4) (rgn_create_rect 0 4 3 9) in
+  rgn_bbox r = rgn_create_rect 0 0 10 9 /\ rgn_mem r 9 0 = true /\ rgn_mem r 0 8 = true.
+Proof. repeat split; reflexivity. Qed.
 
 (* non-vacuity: a concrete non-trivial well-formed region (an L shape) *)
 Example C11_nonvacuous :
